@@ -39,7 +39,7 @@ head = (f"{len(rows)} changes were written by independent sub-agents that saw on
         f"{len(rows)-nm-npre} caught as is, {npre} caught after I had extended a harness from the agent's summary (before "
         f"running the seed, without seeing the patch), {nm} missed or inconclusive; every miss led to a new or strengthened "
         f"harness (column 3). Final state (`./seedsweep.sh`, seeded/RESULTS.txt): {ncaught}/{len(rows)} reported as "
-        "VIOLATION with native confirmation, none on the unchanged tree. Three patches (C09-2, C11-2, C15-3) were re-expressed "
+        "VIOLATION with native confirmation, none on the unchanged tree. Four patches (C09-2, C11-2, C15-3, C16-2) were re-expressed "
         "on top of later fix: commits that rewrote the same lines (original kept as patch.orig.diff).\n\n"
         "| seed | change | first run -> strengthening | detected by (final) |\n|------|--------|---------------------------|---------------------|\n")
 table = head + "\n".join(f"| {n} | {s} | {f} | {b} |" for n, s, f, b, _ in rows)
